@@ -5,6 +5,12 @@ HERE = os.path.dirname(os.path.dirname(os.path.abspath(__file__)))
 
 # id -> (technique, level text, level note, design ref)
 CHECKS = {
+ "C01": ("differential testing jit vs interpreter: exhaustive operand enumeration per encoding + all-pointer sweeps + proptest-generated blocks with shrinking",
+         "Two identical ROM-file cores inside the jit build; one runs interpreter::run_code_block, the other translate_code_block + call. Layer 1 sweeps every register-only encoding over its complete operand/flag space (translated once, called ~10^8 times), layer 2 sweeps the pointer register of every memory-accessing encoding over the address space (all region boundaries, I/O, bank registers; all 65536 values in thorough), layer 3 generates straight-line blocks with every terminator and placement class and shrinks failures. Compared: all registers as 32-bit fields, status class, ordered bus-write trace, complete memory/device state; a dead worker process is a violation.",
+         "interpreter is the oracle (pinned by C05/C06); fixed cartridge (MBC1, 8 banks, 32 KiB RAM); multi-instruction contexts are sampled, not exhausted; host-register preservation is only observed through process survival", "DESIGN.md §5 C01"),
+ "C02": ("differential testing jit vs interpreter on the cycle counter: exhaustive over encodings x flags + proptest-generated blocks",
+         "Every defined encoding as a block x 16 flag states x initial cycles {0,5} x 3 operand variants (both outcomes of every conditional), then sums over generated multi-instruction blocks; Registers.cycles after the translated block must equal the interpreter's. Complete for single instructions, sampled for sums.",
+         "interpreter cycle counts are the oracle (pinned to the published table by C06)", "DESIGN.md §5 C02"),
  "C06": ("exhaustive enumeration of encodings x flags x PC/SP boundary sets, differential against an independent reference SM83 model",
          "All 512 encodings x 16 flag states x 22 PC placements (every fetch region, its first and last bytes, instructions crossing a region end, wrap) x 30 SP values for stack instructions x all 256 JR displacements x 256 absolute targets are executed by the interpreter and by the reference CPU running on a twin machine's bus; PC, SP, ordered stack writes, machine cycles, block-end flag, status and decoder length are compared; the 11 undefined opcodes must decode as invalid and be refused without side effects. Complete for the enumerated product.",
          "trusted: models::sm83 incl. literal copies of the published length and cycle tables (cross-checked against its own step function); PC/SP sets are boundary-complete, not all 2^16 values", "DESIGN.md §5 C06"),
